@@ -187,7 +187,7 @@ func (x *pextract) block(stmts []ast.Stmt) []*pev {
 			if !ok {
 				ev.kind, ev.text = evOther, "range over something that is not a field of the node"
 			}
-			if v, ok := s.Value.(*ast.Ident); ok && ok {
+			if v, isIdent := s.Value.(*ast.Ident); isIdent && ok {
 				x.rangeVars[x.info.ObjectOf(v)] = fp
 			}
 			if k, ok := s.Key.(*ast.Ident); ok && k.Name != "_" {
